@@ -72,6 +72,7 @@ PROPS = {
         "assumptions": ["an in-flight call is abandoned by an upgrade (the pending future is dropped)"],
     },
     "C20": {
+        "model_spec_ops": ["c snap"],
         "spec_ops": [],
         "extra_props": ["C01Reach", "C03History", "ReachAll"],
         "streams": [{"name": "ledger", "quick": 160, "thorough": 1600}, {"name": "sync", "quick": 64, "thorough": 800}],
@@ -83,6 +84,7 @@ PROPS = {
         "assumptions": [],
     },
     "C01": {
+        "model_spec_ops": ["c ledgerat"],
         "spec_ops": ["c ledgerat"],
         "extra_props": ["C01Reach", "InvPush", "InvIngest", "BlockCodec", "ReachAll"],
         "streams": [{"name": "ledger", "quick": 160, "thorough": 1600}, {"name": "sync", "quick": 64, "thorough": 800}],
@@ -109,6 +111,7 @@ PROPS = {
         "assumptions": [],
     },
     "C10": {
+        "model_spec_ops": ["c hb", "c reply"],
         "spec_ops": [],
         "extra_props": ["BlockCodec"],
         "streams": [{"name": "sync", "quick": 160, "thorough": 3200}],
@@ -122,6 +125,7 @@ PROPS = {
     },
     "C13": {
         "extra_props": ["C13Live"],
+        "model_spec_ops": ["c hb", "c reply"],
         "spec_ops": [],
         "streams": [{"name": "sync", "quick": 160, "thorough": 3200}],
         "rule": SYNC_RULE,
@@ -134,6 +138,7 @@ PROPS = {
         "assumptions": ["replies have the kind their request asks for (other kinds trap the continuation; the trap state is modelled as rollback + guard release)"],
     },
     "C03": {
+        "model_spec_ops": ["c advance"],
         "spec_ops": ["c advance"],
         "extra_props": ["C03History"],
         "streams": [{"name": "ledger", "quick": 160, "thorough": 1600}, {"name": "sync", "quick": 80, "thorough": 800}],
@@ -147,6 +152,7 @@ PROPS = {
     },
     "C04": {
         "extra_props": ["ReachAll"],
+        "model_spec_ops": ["c cutat"],
         "spec_ops": ["c cutat"],
         "streams": [{"name": "ledger", "quick": 160, "thorough": 1600}],
         "rule": LEDGER_RULE,
@@ -159,6 +165,7 @@ PROPS = {
         "assumptions": ["blocks fed through unstable_blocks::push with mock difficulties"],
     },
     "C11": {
+        "model_spec_ops": ["h "],
         "spec_ops": [],
         "streams": [{"name": "hdr", "quick": 160, "thorough": 2400}, {"name": "sync", "quick": 96, "thorough": 1600}],
         "rule": "hdr stream: synthetic header stores for mainnet/testnet4/regtest (window from genesis, straddling a multiple of 2016, a full 2016-block period, or arbitrary base; timestamps with 1 s / 1200 s / >1200 s gaps and "
@@ -173,6 +180,7 @@ PROPS = {
         "assumptions": ["u32 overflow of prev.time + 1200 and a missing genesis header are outside the modelled domain", "Rust compares targets, Core compares nBits: a non-canonical encoding of the required target is accepted by the code (noted, not part of the property)"],
     },
     "C12": {
+        "model_spec_ops": ["b validate"],
         "spec_ops": [],
         "streams": [{"name": "blk", "quick": 1500, "thorough": 20000}, {"name": "sync", "quick": 160, "thorough": 1600}],
         "rule": "blk stream: regtest blocks with 1-40 transactions (legacy and segwit) whose header is valid by construction (mined on genesis), validated by BlockValidator::validate_block in their original "
@@ -187,6 +195,7 @@ PROPS = {
     },
     "C15": {
         "extra_props": ["C15Spec"],
+        "model_spec_ops": ["c q fees"],
         "spec_ops": ["c q feesn"],
         "streams": [{"name": "ledger", "quick": 160, "thorough": 1600}, {"name": "sync", "quick": 80, "thorough": 800}],
         "rule": LEDGER_RULE,
@@ -198,6 +207,7 @@ PROPS = {
         "assumptions": [],
     },
     "C18": {
+        "model_spec_ops": ["t "],
         "spec_ops": [],
         "streams": [{"name": "tf", "quick": 800, "thorough": 20000}],
         "rule": "tf stream: for each of the 10 explorer transforms, bodies shaped for the endpoint with whitespace / member order / extra and duplicate members varied, wrong types, negative/float/huge numbers, "
@@ -211,6 +221,7 @@ PROPS = {
     },
     "C19": {
         "extra_props": ["NetSpelling"],
+        "model_spec_ops": ["c sendtx", "x decode"],
         "spec_ops": [],
         "streams": [{"name": "txc", "quick": 3000, "thorough": 60000}, {"name": "sync", "quick": 160, "thorough": 1600}],
         "rule": "txc stream: random transactions (0-3 inputs, 0-3 outputs, legacy/segwit, witness stacks, scripts of 0-300 bytes), their exact serialisation and variants: extended by 1-5 bytes, truncated, "
@@ -225,6 +236,7 @@ PROPS = {
     },
     "C14": {
         "extra_props": ["NetSpelling"],
+        "model_spec_ops": ["c call"],
         "spec_ops": [],
         "streams": [{"name": "sync", "quick": 160, "thorough": 3200}],
         "rule": SYNC_RULE,
@@ -236,6 +248,7 @@ PROPS = {
         "assumptions": ["native build: a panic is the observable 'trap'; is_watchdog_caller/controller checks of set_config are wasm-only and not modelled"],
     },
     "C16": {
+        "model_spec_ops": ["c call"],
         "spec_ops": [],
         "streams": [{"name": "sync", "quick": 160, "thorough": 3200}],
         "rule": SYNC_RULE,
@@ -247,6 +260,7 @@ PROPS = {
         "assumptions": ["the native mock of msg_cycles_available does not decrease after msg_cycles_accept; on the IC it does, which cannot matter because fee <= maximum - base"],
     },
     "C02": {
+        "model_spec_ops": ["c bestat"],
         "spec_ops": ["c bestat"],
         "streams": [{"name": "ledger", "quick": 160, "thorough": 1600}],
         "rule": LEDGER_RULE,
